@@ -13,7 +13,9 @@ BUDGET_S = {'quick': 60, 'thorough': 400}
 BOUNDS = {
     'quick': 'scenarios {input read, output integrity, output read back} x {HASH, METADATA} x {top level, nested in a '
              'subbuild, nested in a build_file}; histories B.M.B; new (content id, mtime) of the changed file are '
-             'unconstrained integers (all four changed/unchanged combinations are regions of one query); plus, for input read and '
+             'unconstrained integers (all four changed/unchanged combinations are regions of one query); one function reading / '
+             'declaring the same input twice through any two of read_binary(METADATA|HASH), read_text, declare_read(HASH|METADATA); '
+             'plus, for input read and '
              'output integrity under HASH, the chunked content model: the library\'s read(n) loop receives pieces, file sizes from '
              '{n-1, n, n+1, 2n, 2n+1} (n = the chunk size the code itself asks for), a content differs from every other one in '
              'exactly one byte at a symbolic offset POS(c) in [0, SZ(c)), a digest of a prefix of k bytes is a function of '
@@ -26,6 +28,8 @@ ASSUMPTIONS = ['equal content ids have equal sizes (SZ is a function of the cont
 WITNESSES = {'quick': ['reexecuted', 'not-reexecuted', 'chunked-read'], 'thorough': ['reexecuted', 'not-reexecuted']}
 
 NESTS = ['top', 'in-sb', 'in-bf']
+TWICE_KINDS = ['read_m', 'read_h', 'read_t', 'declare', 'declare_m']
+KIND_MODE = {'read_m': 'METADATA', 'read_h': 'HASH', 'read_t': 'METADATA', 'declare': 'HASH', 'declare_m': 'METADATA'}
 MODES = ['METADATA', 'HASH']
 
 
@@ -33,6 +37,8 @@ def families(tier):
     fams = [{'name': 'input', 'params': {'builds': 2}}, {'name': 'integrity', 'params': {'builds': 2}},
             {'name': 'readback', 'params': {'builds': 2}}, {'name': 'readback', 'params': {'builds': 2, 'tamper': True}},
             # chunked content model: the library's read(n) loop sees pieces, digests of prefixes are distinguished
+            # one function declares the same file twice, under two comparison modes / through two spellings of the read API
+            {'name': 'twice', 'params': {'builds': 2}},
             {'name': 'input', 'params': {'builds': 2, 'chunked': True}},
             {'name': 'integrity', 'params': {'builds': 2, 'chunked': True}}]
     if tier == 'thorough':
@@ -63,7 +69,7 @@ def _meta(w, path):
 
 def harness(eng, fam, P):
     chunked = bool(P.get('chunked'))
-    mode = 'HASH' if chunked else MODES[eng.choose('mode', 2)]
+    mode = 'HASH' if chunked or fam == 'twice' else MODES[eng.choose('mode', 2)]
     nest = 'top' if chunked else NESTS[eng.choose('nest', 3)]
     rk = 'read_m' if mode == 'METADATA' else 'read_h'
     w = World(eng, [], fixed={'in': 'D', 'in/x': 'F', 'o': 'D'}, sandbox=getattr(eng, 'sandbox', None))
@@ -73,6 +79,12 @@ def harness(eng, fam, P):
         if fam == 'input':
             target, watch = 'r', w.p('in/x')
             body = _wrap(nest, ('SB', 's', {}, [('Q', rk, 'in/x')]))
+        elif fam == 'twice':
+            watch = w.p('in/x')
+            k1 = TWICE_KINDS[eng.choose('k1', len(TWICE_KINDS))]
+            k2 = TWICE_KINDS[eng.choose('k2', len(TWICE_KINDS))]
+            modes2 = sorted({KIND_MODE[k1], KIND_MODE[k2]})
+            body = _wrap(nest, ('SB', 's', {}, [('Q', k1, 'in/x'), ('Q', k2, 'in/x')]))
         elif fam == 'integrity':
             watch = w.p('o/f')
             body = _wrap(nest, ('BF', 'o/f', {'mode': 'ok', 'cmp': mode}, []))
@@ -102,6 +114,9 @@ def harness(eng, fam, P):
             new = _meta(w, watch) if fam == 'readback' else new_before
             re = sid in d.impl_calls
             must = changed(eng, mode, old, new)
+            if fam == 'twice':
+                # declared under both modes: a change visible to either of them counts
+                must = L.or_(*[changed(eng, m_, old, new) for m_ in modes2])
             eng.check('C13.%s' % fam, must if re else L.not_(must), (fam, mode, nest, 'reexecuted' if re else 'reused'),
                       info={'program': show(body), 'mode': mode, 'reexecuted': re})
             eng.witness('reexecuted' if re else 'not-reexecuted')
